@@ -277,12 +277,14 @@ class LocalScheduleObject(CurrentPropertyListMixIn, ScheduleObject):
         # continue initialization
         ScheduleObject.__init__(self, **kwargs)
 
-        # attach an interpreter task
-        self._task = LocalScheduleInterpreter(self)
-
-        # add some monitors to check the reliability if these change
+        # add some monitors to check the reliability if these change, they
+        # come before the monitors of the interpreter which looks at the
+        # reliability of the configuration it has just been told about
         for prop in ('weeklySchedule', 'exceptionSchedule', 'scheduleDefault'):
             self._property_monitors[prop].append(self._check_reliability)
+
+        # attach an interpreter task
+        self._task = LocalScheduleInterpreter(self)
 
         # check it now
         self._check_reliability()
